@@ -45,9 +45,10 @@ def solve(fml: Any, timeout_ms: int = 20_000) -> tuple[str, float, Any]:
     s.add(P.TZ_CONSTRAINTS)
     t0 = time.time()
     r = str(s.check())
-    TZ[0] = 0
-    if r == "sat":
+    TZ[0], TZ[1] = 0, 0
+    if r == "sat" and Enc.uses_tz:
         TZ[0] = s.model().eval(P.TZOFF, model_completion=True).as_long()
+        TZ[1] = s.model().eval(P.TZT, model_completion=True).as_long()
     if os.environ.get("VERIF_DEBUG"):
         import sys
         print(f"[solve] {r} {time.time()-t0:.2f}s", file=sys.stderr, flush=True)
@@ -101,31 +102,59 @@ class Enc:
 
 
 DEADLINE = [float('inf')]
-TZ = [0]   # process time zone offset (seconds east) under which the real functions are replayed
 
 
-def posix_tz(off: int) -> str:
-    a = abs(off)
-    return "VRF" + ("-" if off > 0 else "+") + f"{a // 3600}:{a % 3600 // 60:02d}:{a % 60:02d}"
+def write_tzif(path: str, off: int, t_fallback: int) -> None:
+    """A TZif (version 2) zone file: daylight time (off + 3600) until the UTC second t_fallback, standard time (off) after."""
+    import struct
+
+    def block(v64: bool, times: list[int], idx: list[int]) -> bytes:
+        fmt = ">q" if v64 else ">l"
+        types = [(off + 3600, 1, 0), (off, 0, 4)]
+        chars = b"VRD\0VRS\0"
+        hdr = b"TZif" + b"2" + b"\0" * 15 + struct.pack(">6l", 0, 0, 0, len(times), len(types), len(chars))
+        body = b"".join(struct.pack(fmt, t) for t in times) + bytes(idx)
+        body += b"".join(struct.pack(">lBB", u, d, a) for u, d, a in types) + chars
+        return hdr + body
+    early = -(2 ** 31) + 10
+    data = block(False, [early], [0]) + block(True, [early, t_fallback], [0, 1]) + b"\n\n"
+    with open(path, "wb") as f:
+        f.write(data)
+
+
+TZ = [0, 0]   # [standard offset (seconds east), UTC second of the fall-back transition]
 
 
 def _in_zone(code: str, arg: Any) -> Any:
     import subprocess
-    env = core.child_env({"TZ": posix_tz(TZ[0])})
-    p = subprocess.run([core.PY, "-c", "import sys,json,time;time.tzset();" + code, json.dumps(arg)], env=env,
-                       capture_output=True, text=True, timeout=120)
-    return json.loads(p.stdout.strip().splitlines()[-1])
+    import tempfile
+    d = tempfile.mkdtemp(prefix="c16tz_")
+    path = os.path.join(d, "zone")
+    try:
+        write_tzif(path, TZ[0], TZ[1])
+        env = core.child_env({"TZ": ":" + path})
+        p = subprocess.run([core.PY, "-c", "import sys,json,time;time.tzset();" + code, json.dumps(arg)], env=env,
+                           capture_output=True, text=True, timeout=120)
+        return json.loads(p.stdout.strip().splitlines()[-1])
+    finally:
+        if os.path.exists(path):
+            os.unlink(path)
+        os.rmdir(d)
+
+
+def tz_active() -> bool:
+    return TZ[0] != 0 or TZ[1] != 0
 
 
 def real_to_pv(n: int) -> str:
-    if TZ[0]:
+    if tz_active():
         return _in_zone("from tel2puml.utils import unix_nano_to_pv_string as f;print(json.dumps(f(json.loads(sys.argv[1]))))", n)
     from tel2puml.utils import unix_nano_to_pv_string
     return unix_nano_to_pv_string(n)
 
 
 def real_to_ns(s: str) -> int:
-    if TZ[0]:
+    if tz_active():
         return _in_zone("from tel2puml.pv_to_tel import convert_timestamp_to_unix_nano as f;print(json.dumps(f(json.loads(sys.argv[1]))))", s)
     from tel2puml.pv_to_tel import convert_timestamp_to_unix_nano
     return convert_timestamp_to_unix_nano(s)
@@ -141,7 +170,7 @@ def run(tier: str) -> int:
         "monotonicity": "every pair n1 <= n2 of integer nanosecond values in the same range (not only multiples of 1000)",
     }
     chk.outside = ["instants before 1970 or after 2100 (first forward failure is at n >= 2**62, Feb 2116)",
-                   "DST transitions (the process time zone is modelled as an arbitrary FIXED offset, a multiple of 15 minutes within +-14 h)"]
+                   "time zones beyond the model: standard offset (multiple of 15 minutes within +-12 h) with ONE fall-back transition; spring-forward gaps and several transitions are not modelled"]
     chk.assumptions = list(P.CONTRACTS) + [
         "z3 5.1 linear integer arithmetic",
         "the stdlib contracts above are validated on each run against CPython on boundary and seeded random instants",
@@ -161,8 +190,8 @@ def run(tier: str) -> int:
         # the converters went through naive local-time operations: the queries above quantify over every FIXED-offset
         # process time zone only; zones with DST transitions (folds/gaps) are not modelled, so this is not a verdict
         chk.unknown("time-zone-dependence", "py2smt", 0.0,
-                    "the code interprets naive datetimes in the process time zone; held for every fixed offset, "
-                    "but DST transitions are not modelled")
+                    "the code interprets naive datetimes in the process time zone; held for every standard offset with one "
+                    "fall-back transition, but spring-forward gaps / several transitions are not modelled")
     return chk.finish()
 
 
@@ -183,7 +212,7 @@ def _fields_faithful(chk: core.Check, s: P.SPVStr, name: str) -> bool:
         chk.counterexample(
             name, "z3", secs, sig="format-drops-field",
             what=f"instants {a}us and {b}us are rendered as {sa!r} and {sb!r}: the string does not determine the instant",
-            replay={"tz": TZ[0], "kind": "to_pv_pair", "k": [a, b]}, reproduced=True)
+            replay={"tz": list(TZ), "kind": "to_pv_pair", "k": [a, b]}, reproduced=True)
         return False
     # the model was built on the over-approximation "an unmodelled directive shows nothing"; z3 has shown that the
     # format cannot be PROVED faithful - look for a real witness among day/hour boundaries of the whole range
@@ -199,7 +228,7 @@ def _fields_faithful(chk: core.Check, s: P.SPVStr, name: str) -> bool:
                     name, "z3+witness-search", secs + time.time() - t0, sig="format-not-faithful",
                     what=f"unix_nano_to_pv_string({1000*kv}) = {real_to_pv(1000*kv)!r}, the instant is {canonical(kv)!r} "
                          f"(format uses directives {P.UNKNOWN_DIRECTIVES or 'that drop a field'})",
-                    replay={"tz": TZ[0], "kind": "to_pv", "k": kv}, reproduced=True)
+                    replay={"tz": list(TZ), "kind": "to_pv", "k": kv}, reproduced=True)
                 return False
     chk.unknown(name, "z3", secs, f"format with unmodelled directives {P.UNKNOWN_DIRECTIVES} could not be proved faithful "
                 "and no concrete witness was found")
@@ -268,7 +297,7 @@ def _run(chk: core.Check, enc: Enc, tier: str) -> None:
             got = real_to_pv(1000 * kv)
             chk.counterexample(nm, "z3", secs, sig="forward-wrong-instant",
                                what=f"unix_nano_to_pv_string({1000*kv}) = {got!r}, expected {canonical(kv)!r}",
-                               replay={"tz": TZ[0], "kind": "to_pv", "k": kv}, reproduced=(got != canonical(kv)))
+                               replay={"tz": list(TZ), "kind": "to_pv", "k": kv}, reproduced=(got != canonical(kv)))
             fwd_ok = False
             break
         else:
@@ -277,7 +306,7 @@ def _run(chk: core.Check, enc: Enc, tier: str) -> None:
         pts = {klo, khi, (klo + khi) // 2} | {rng.randint(klo, khi) for _ in range(3 if tier == "quick" else 12)}
         twin_done = False
         sv = z3.Solver()
-        sv.add(P.TZOFF == 0)   # validation points are compared with the real function in this process (UTC)
+        sv.add(P.TZOFF == 0, P.TZT == 86400)   # validation points are compared with the real function in this process (UTC)
         sv.add(z3.Or([z3.And(g, z3.Int("out") == t) for g, t, _, _ in cases]))
         for kv in sorted(pts):
             sv.push()
@@ -310,6 +339,7 @@ def _run(chk: core.Check, enc: Enc, tier: str) -> None:
     nparts = int_partitions(0, 1000 * K_MAX)
     if fwd_ok:
         nearest: dict[int, bool] = {i: False for i in range(len(nparts))}
+        b1_timeouts = [0]
         lemma_ds: set[int] = set()
         new_phase()
         for pi_ in reversed(range(len(nparts))):      # present-day magnitudes first
@@ -323,7 +353,10 @@ def _run(chk: core.Check, enc: Enc, tier: str) -> None:
             r, secs, m = solve(bad, 20_000)
             nearest[pi_] = (r == "unsat")
             if r == "unknown":
-                chk.unknown(nm, "z3", secs, "solver answered unknown")
+                # not a verdict either way: this binade is left to the pair queries of b2
+                b1_timeouts[0] += 1
+                if b1_timeouts[0] >= 6:
+                    skip[0] = True
             if r == "unsat":
                 chk.held(nm, "z3", secs, cases=len(s1.us.cases))
         chk.extra["b1_nearest_us_binades"] = sum(nearest.values())
@@ -352,7 +385,7 @@ def _run(chk: core.Check, enc: Enc, tier: str) -> None:
                     sa, sb = real_to_pv(a), real_to_pv(b)
                     chk.counterexample(nm, "z3", secs, sig="order-not-preserved",
                                        what=f"{a} <= {b} ns but {sa!r} > {sb!r}",
-                                       replay={"tz": TZ[0], "kind": "order", "n": [a, b]}, reproduced=(sa > sb))
+                                       replay={"tz": list(TZ), "kind": "order", "n": [a, b]}, reproduced=(sa > sb))
                     break
                 else:
                     chk.unknown(nm, "z3", secs, f"solver answered {r}")
@@ -388,7 +421,7 @@ def _run(chk: core.Check, enc: Enc, tier: str) -> None:
             got = real_to_ns(canonical(kv))
             chk.counterexample(nm, "z3", secs, sig="backward-wrong-instant",
                                what=f"convert_timestamp_to_unix_nano({canonical(kv)!r}) = {got}, expected {1000*kv}",
-                               replay={"tz": TZ[0], "kind": "to_ns", "k": kv}, reproduced=(got != 1000 * kv))
+                               replay={"tz": list(TZ), "kind": "to_ns", "k": kv}, reproduced=(got != 1000 * kv))
             back_ok = False
             chk.extra["c_backward_note"] = "stopped at the first counterexample; remaining binades not queried"
             break
@@ -397,7 +430,7 @@ def _run(chk: core.Check, enc: Enc, tier: str) -> None:
         twin_done = False
         # translator validation for the backward direction
         sv = z3.Solver()
-        sv.add(P.TZOFF == 0)
+        sv.add(P.TZOFF == 0, P.TZT == 86400)
         sv.add(z3.Or([z3.And(g, z3.Int("out") == t) for g, t, _, _ in ns.cases]))
         pts = {klo, khi} | {rng.randint(klo, khi) for _ in range(3 if tier == "quick" else 12)}
         for kv in sorted(pts):
@@ -429,7 +462,7 @@ def _run(chk: core.Check, enc: Enc, tier: str) -> None:
                 got = real_to_pv(real_to_ns(canonical(kv)))
                 chk.counterexample(nm, "z3", secs, sig="roundtrip-changes-timestamp",
                                    what=f"PV->OTel->PV maps {canonical(kv)!r} to {got!r}",
-                                   replay={"tz": TZ[0], "kind": "roundtrip", "k": kv}, reproduced=(got != canonical(kv)))
+                                   replay={"tz": list(TZ), "kind": "roundtrip", "k": kv}, reproduced=(got != canonical(kv)))
             else:
                 chk.unknown(nm, "z3", secs, f"solver answered {r} / layout preserved: {shape_ok}")
     chk.samples.append({"query": "c.backward", "meaning": "exists k in binade: to_ns(PV string of k) != 1000k (unsat expected)"})
@@ -496,7 +529,8 @@ def _small_format_crosscheck(chk: core.Check) -> None:
 def replay_file(path: str) -> int:
     rec = json.load(open(path))["replay"]
     kind = rec["kind"]
-    TZ[0] = int(rec.get("tz", 0))
+    tz = rec.get("tz", [0, 0])
+    TZ[0], TZ[1] = (tz if isinstance(tz, list) else [int(tz), 0])
     if kind == "to_pv":
         kv = rec["k"]; got = real_to_pv(1000 * kv); print(got, canonical(kv)); return int(got != canonical(kv))
     if kind == "to_ns":
